@@ -82,16 +82,18 @@ VARIABLES plan,     \* [H -> plan instance | none]
           wr,       \* [lock -> handler holding it for write | 0]
           rd,       \* [lock -> set of handlers holding it for read]
           ww,       \* [lock -> set of handlers waiting to write]
+          rw,       \* [lock -> set of handlers blocked in RLock behind a writer]
           ba        \* [H -> {<<a, pc[a]>>}]: the calls that were inside the backend when the handler began
                     \*   (history, for the ordered rendezvous experiments of the harness)
 
-vars == <<plan, pc, inside, wr, rd, ww, ba>>
-View == <<plan, pc, inside, wr, rd, ww>>       \* for looping configurations, where ba is history only
+vars == <<plan, pc, inside, wr, rd, ww, rw, ba>>
+View == <<plan, pc, inside, wr, rd, ww, rw>>       \* for looping configurations, where ba is history only
 Locks == {RM} \cup Nodes
 NoPlan == [p |-> "-", n |-> 0, e |-> 0]
 
 Init == /\ plan = [h \in H |-> NoPlan] /\ pc = [h \in H |-> 0] /\ inside = [h \in H |-> FALSE]
         /\ wr = [l \in Locks |-> 0] /\ rd = [l \in Locks |-> {}] /\ ww = [l \in Locks |-> {}]
+        /\ rw = [l \in Locks |-> {}]
         /\ ba = [h \in H |-> {}]
 
 Cur(h) == Steps(plan[h])[pc[h]]
@@ -100,44 +102,58 @@ Begin(h) == /\ pc[h] = 0 /\ (Loop \/ ba[h] # {<<0, 0>>})
             /\ \E pl \in PlanSet : plan' = [plan EXCEPT ![h] = pl]
             /\ pc' = [pc EXCEPT ![h] = 1]
             /\ ba' = [ba EXCEPT ![h] = {<<a, pc[a]>> : a \in {x \in H : x # h /\ pc[x] > 0 /\ inside[x]}}]
-            /\ UNCHANGED <<inside, wr, rd, ww>>
+            /\ UNCHANGED <<inside, wr, rd, ww, rw>>
 
-\* RLock: blocked by a writer that holds or waits.
+\* RLock: succeeds unless a writer holds or waits; otherwise the reader blocks
+\* (BlockR) and is admitted when that writer unlocks - Go's RWMutex hands the
+\* lock to every reader that queued up behind a writer before the next writer.
 AcquireR(h) == /\ pc[h] > 0 /\ Cur(h)[1] = "L" /\ Cur(h)[3] = "r"
                /\ LET l == Cur(h)[2] IN
-                  /\ wr[l] = 0 /\ ww[l] = {}
+                  /\ wr[l] = 0 /\ ww[l] = {} /\ h \notin rw[l]
                   /\ rd' = [rd EXCEPT ![l] = @ \cup {h}]
-               /\ pc' = [pc EXCEPT ![h] = @ + 1] /\ UNCHANGED <<plan, inside, wr, ww, ba>>
+               /\ pc' = [pc EXCEPT ![h] = @ + 1] /\ UNCHANGED <<plan, inside, wr, ww, rw, ba>>
+BlockR(h) == /\ pc[h] > 0 /\ Cur(h)[1] = "L" /\ Cur(h)[3] = "r"
+             /\ LET l == Cur(h)[2] IN
+                /\ (wr[l] # 0 \/ ww[l] # {}) /\ h \notin rw[l]
+                /\ rw' = [rw EXCEPT ![l] = @ \cup {h}]
+             /\ UNCHANGED <<plan, pc, inside, wr, rd, ww, ba>>
 
 \* Lock: announce (from then on new readers wait), then obtain when free.
 WantW(h) == /\ pc[h] > 0 /\ Cur(h)[1] = "L" /\ Cur(h)[3] = "w"
             /\ LET l == Cur(h)[2] IN h \notin ww[l] /\ ww' = [ww EXCEPT ![l] = @ \cup {h}]
-            /\ UNCHANGED <<plan, pc, inside, wr, rd, ba>>
+            /\ UNCHANGED <<rw, plan, pc, inside, wr, rd, ba>>
 AcquireW(h) == /\ pc[h] > 0 /\ Cur(h)[1] = "L" /\ Cur(h)[3] = "w"
                /\ LET l == Cur(h)[2] IN
                   /\ h \in ww[l] /\ wr[l] = 0 /\ rd[l] = {}
                   /\ wr' = [wr EXCEPT ![l] = h] /\ ww' = [ww EXCEPT ![l] = @ \ {h}]
-               /\ pc' = [pc EXCEPT ![h] = @ + 1] /\ UNCHANGED <<plan, inside, rd, ba>>
+               /\ pc' = [pc EXCEPT ![h] = @ + 1] /\ UNCHANGED <<rw, plan, inside, rd, ba>>
 
 Enter(h) == /\ pc[h] > 0 /\ Cur(h)[1] = "C" /\ ~inside[h]
-            /\ inside' = [inside EXCEPT ![h] = TRUE] /\ UNCHANGED <<plan, pc, wr, rd, ww, ba>>
+            /\ inside' = [inside EXCEPT ![h] = TRUE] /\ UNCHANGED <<plan, pc, wr, rd, ww, rw, ba>>
 Exit(h)  == /\ pc[h] > 0 /\ Cur(h)[1] = "C" /\ inside[h]
             /\ inside' = [inside EXCEPT ![h] = FALSE] /\ pc' = [pc EXCEPT ![h] = @ + 1]
-            /\ UNCHANGED <<plan, wr, rd, ww, ba>>
+            /\ UNCHANGED <<plan, wr, rd, ww, rw, ba>>
 
-\* deferred unlocks: everything the handler holds
+\* deferred unlocks: everything the handler holds.  Unlocking a write lock
+\* admits every reader that blocked behind it.
 Release(h) == /\ pc[h] > 0 /\ Cur(h)[1] = "U"
-              /\ wr' = [l \in Locks |-> IF wr[l] = h THEN 0 ELSE wr[l]]
-              /\ rd' = [l \in Locks |-> rd[l] \ {h}]
-              /\ pc' = [pc EXCEPT ![h] = @ + 1]
+              /\ LET wl == {l \in Locks : wr[l] = h}              \* write locks released now
+                      adm == UNION {rw[l] : l \in wl}              \* readers admitted
+                  IN /\ wr' = [l \in Locks |-> IF wr[l] = h THEN 0 ELSE wr[l]]
+                     /\ rd' = [l \in Locks |-> IF l \in wl THEN (rd[l] \ {h}) \cup rw[l] ELSE rd[l] \ {h}]
+                     /\ rw' = [l \in Locks |-> IF l \in wl THEN {} ELSE rw[l]]
+                     /\ pc' = [x \in H |-> IF x = h \/ x \in adm THEN pc[x] + 1 ELSE pc[x]]
               /\ UNCHANGED <<plan, inside, ww, ba>>
 End(h) == /\ pc[h] > 0 /\ Cur(h)[1] = "E"
           /\ pc' = [pc EXCEPT ![h] = 0] /\ plan' = [plan EXCEPT ![h] = NoPlan]
           /\ ba' = IF Loop THEN ba ELSE [ba EXCEPT ![h] = {<<0, 0>>}]       \* marks "has run"
-          /\ UNCHANGED <<inside, wr, rd, ww>>
+          /\ UNCHANGED <<inside, wr, rd, ww, rw>>
 
-Step(h) == Begin(h) \/ AcquireR(h) \/ WantW(h) \/ AcquireW(h) \/ Enter(h) \/ Exit(h) \/ Release(h) \/ End(h)
-Next == \E h \in H : Step(h)
+Step(h) == Begin(h) \/ AcquireR(h) \/ BlockR(h) \/ WantW(h) \/ AcquireW(h) \/ Enter(h) \/ Exit(h) \/ Release(h) \/ End(h)
+\* One-shot configurations end in an explicit terminal step, so that TLC's
+\* deadlock check reports exactly the states in which some handler is stuck.
+Finished == ~Loop /\ (\A h \in H : ba[h] = {<<0, 0>>}) /\ UNCHANGED vars
+Next == (\E h \in H : Step(h)) \/ Finished
 \* Go's mutexes are starvation-free (a waiter is eventually served): strong
 \* fairness for the acquisitions, weak fairness for the rest.
 Spec == Init /\ [][Next]_vars /\ \A h \in H : WF_vars(Step(h)) /\ SF_vars(AcquireW(h)) /\ SF_vars(AcquireR(h))
@@ -165,4 +181,7 @@ ContractInv ==
 Terminates == \A h \in H : (pc[h] > 0) ~> (pc[h] = 0)
 
 LocksSane == \A l \in Locks : (wr[l] # 0 => rd[l] = {})
+
+\* one-shot configurations (Loop = FALSE): every handler runs its request to the end
+AllDone == <>(\A h \in H : ba[h] = {<<0, 0>>})
 =============================================================================
